@@ -59,11 +59,29 @@ try:
     meta["demo_with_patch_tail"] = (r1.stdout + r1.stderr)[-1500:]
     if suite:
         os.remove(os.path.join(wt, dpath))
-        rs = sh("go test -vet=off -count=1 -timeout 25m ./... 2>&1 | grep -E '^(FAIL|---.FAIL|ok|panic)' ", timeout=3000)
-        fails = [l for l in rs.stdout.splitlines() if l.startswith("--- FAIL") or l.startswith("FAIL")]
-        other = [l for l in fails if "dhcpd" not in l and not re.match(r"FAIL\s+github.com/google/mtail/internal/mtail\s", l) and l.strip() != "FAIL"]
-        top = [l for l in fails if l.startswith("--- FAIL") and "/" not in l and "TestExamplePrograms" not in l and "TestFilePipeStreamComparison" not in l]
-        meta["suite_with_patch"] = "only the two pre-existing dhcpd subtests fail" if not other and not top else "OTHER FAILURES: " + "; ".join(other + top)[:800]
+        def suite_fails(pkgs="./..."):
+            rs = sh("go test -vet=off -count=1 -timeout 25m %s 2>&1 | grep -E '^[[:space:]]*(FAIL|--- FAIL|ok|panic)' " % pkgs, timeout=3000)
+            bad = []
+            pk = set()
+            for l in rs.stdout.splitlines():
+                t = l.strip()
+                if t.startswith("--- FAIL"):
+                    name = t.split()[2]
+                    if name in ("TestExamplePrograms", "TestFilePipeStreamComparison") or "dhcpd" in name:
+                        continue
+                    bad.append(name)
+                elif t.startswith("FAIL") and len(t.split()) >= 2 and t.split()[1].startswith("github.com"):
+                    pk.add(t.split()[1])
+            return bad, pk
+        bad, pk = suite_fails()
+        flaky = []
+        if bad:
+            # tests that fail under load: run their packages once more on their own
+            again = " ".join("./" + q.replace("github.com/google/mtail/", "") for q in pk) or "./internal/mtail"
+            bad2, _ = suite_fails(again)
+            flaky = [x for x in bad if x not in bad2]
+            bad = [x for x in bad if x in bad2]
+        meta["suite_with_patch"] = ("only the two pre-existing dhcpd subtests fail" + (" (load-related failures that passed on an immediate re-run of their package: %s)" % ", ".join(flaky) if flaky else "")) if not bad else "OTHER FAILURES: " + "; ".join(bad)[:800]
         shutil.copy(demo, os.path.join(wt, dpath))
     # stage B on the patched tree (demo file removed so the tree is exactly HEAD+patch)
     os.remove(os.path.join(wt, dpath))
